@@ -29,3 +29,14 @@ func context.Context.Err
   recvnonnil
   modifies nothing
   ensures result == ctxErrOf[self]
+# pure string helpers: nothing is assumed about their results (so a function that starts to rely on one of them has to
+# prove its postcondition without knowing what it returned - it fails, rather than becoming undecidable)
+func strings.HasPrefix
+  assumed
+  modifies nothing
+func strings.HasSuffix
+  assumed
+  modifies nothing
+func strings.Contains
+  assumed
+  modifies nothing
